@@ -50,7 +50,7 @@ class FileManager:
         zpage = c.prepend_zdir(self._zdir, note.file_path)
         assert note.zid is not None
         for i, line in enumerate(zpage.read_text().split("\n")):
-            if f" {note.zid} " in line:
+            if _is_first_line_of_note(line, note.zid):
                 start_idx = i
                 break
         else:
@@ -62,3 +62,26 @@ class FileManager:
         new_zcontents = "\n".join(new_zlines)
         zpage.write_text(new_zcontents)
         return None
+
+
+def _is_first_line_of_note(line: str, zid: str) -> bool:
+    """Returns True iff {line} is the first line of the note identified by {zid}.
+
+    A note's own ZID directly follows its kind symbol, optional priority, and
+    optional YYMMDD modify date. Any other occurrence of the ZID on a line
+    (e.g. another note that mentions it) does NOT identify the note.
+    """
+    words = line.split()
+    if not words or words[0] not in ("-", "o", "x", "~", "<", ">"):
+        return False
+    words.pop(0)
+    if (
+        words
+        and len(words[0]) == 2
+        and words[0][0] == "P"
+        and words[0][1].isdigit()
+    ):
+        words.pop(0)
+    if words and len(words[0]) == 6 and words[0].isdigit():
+        words.pop(0)
+    return bool(words) and words[0] == zid
